@@ -521,10 +521,12 @@ def running_child_on_same_runner(ctx: Ctx, kind: str) -> None:
         _time.sleep(0.002)
     runner.stop_runner_loop()
     th.join(6)
+    if th.is_alive():
+        th.join(40)          # (a loaded machine: every status poll of the waiting parent is a SQLite round trip; a real hang lasts for ever)
     ctx.count()
     ctx.distinct((kind, "parent-child-both-running", child_running))
     if child_running and th.is_alive():
-        ctx.report(f"stop-hangs[{kind}]:parent-and-running-child", f"[{kind}] run() does not return 6 s after the stop request although the awaited sub-task was RUNNING on the same runner "
+        ctx.report(f"stop-hangs[{kind}]:parent-and-running-child", f"[{kind}] run() does not return 46 s after the stop request although the awaited sub-task was RUNNING on the same runner "
                                                                   f"(0.4 s body): parent {inv.status.value}", {"kind": "parent-child-both-running", "backend": kind})
         T.C11_RELEASE.set()
 
